@@ -40,6 +40,13 @@ def scalars_ext() -> List[Any]:
     s += [chr(c) for c in range(0x20)]                      # every C0 control
     s += [chr(c) for c in range(0x7F, 0xA0)]                # DEL and every C1 control
     s += ["\ud7ff", "\ue000", "\ufffe", "\uffff", "\U00010000", "\U0010ffff"]
+    # strings whose TEXT looks like JSON syntax: a token of the grammar (or of its JavaScript supersets) right after a
+    # structural character - what a text-level post-processing of the encoder output would mistake for a value
+    for tok in ("NaN", "Infinity", "-Infinity", "null", "true", "false", "1e999", "undefined"):
+        for pre in (":", ": ", ",", ", ", "[", "[ "):
+            s.append(pre + tok)
+        s += [pre + tok + post for pre, post in ((":", ","), ("[", "]"), (",", "}"))]
+    s += ["{\"a\":NaN}", "[Infinity,-Infinity]", "\"k\":null", "\\\":NaN", "a\":NaN,\"b", "/*c*/", "//c", "\\u0041"]
     s += ["".join(chr(c) for c in range(0x20)), "\r\n", "a\nb\rc", "x\u2028y\u2029z\u0085w",
           "\u00e9\u20ac\U0001F600\U0010ffff", "\\n", "\\u000a", "</script>", "\x7f\x80\x9f"]
     ints = [I53 - 1, I53, I53 + 1, -(I53 - 1), -I53, -(I53 + 1), I63 - 1, I63, I63 + 1, I64 - 1,
@@ -59,7 +66,7 @@ def scalars_ext() -> List[Any]:
     return dedupe(s)
 
 
-KEYS_EXT = ["k", "", "\u00e9", "a b", "\n", "\r", "\x00", "\x1f", "\x7f", "\u0085", "\u2028", "\u2029",
+KEYS_EXT = [":NaN", "[Infinity", "k", "", "\u00e9", "a b", "\n", "\r", "\x00", "\x1f", "\x7f", "\u0085", "\u2028", "\u2029",
             "\ud7ff", "\uffff", "\U0001F600", "\U0010ffff", "\"", "\\", "\t", "\u20ac"]
 INNER = list(gen.SCALARS_SMALL) + [False, -1, I64 - 1, -I63, I53 + 1, 1e308, 5e-324, "\r", "\x00\x1f\x7f\u0085",
                                     "\U0010ffff"]
@@ -553,6 +560,8 @@ def child_handle(case: Any) -> Any:
     op = case[0]
     if op == "msg":
         return child_message(dec(case[1]))
+    if op == "msg-shared":
+        return child_message(share_containers(dec(case[1])))
     if op == "state":
         return child_state(dec(case[1]))
     if op == "seq":
@@ -814,6 +823,21 @@ def message_space() -> List[Dict[str, Any]]:
     return out
 
 
+def share_containers(wire: Dict[str, Any]) -> Dict[str, Any]:
+    """The same envelope with ONE container object occurring several times inside its payload (siblings in an object, in a
+    list, parent and child position) - never containing itself: what application code builds when it reuses a dict."""
+    w = dict(wire)
+    for key in ("params", "result"):
+        if isinstance(w.get(key), dict):
+            p = w[key]
+            inner = [1, {"k": "v\n"}]
+            w[key] = {"first": p, "second": p, "list": [p, p, inner], "again": {"deep": inner, "p": p}}
+    if isinstance(w.get("error"), dict) and isinstance(w["error"].get("data"), (dict, list)):
+        d = w["error"]["data"]
+        w["error"] = {**w["error"], "data": {"a": d, "b": d, "l": [d, d]}}
+    return w
+
+
 def child_message(wire: Dict[str, Any]) -> Dict[str, Any]:
     """Every typed form of this envelope x every way the package turns it into text."""
     import asyncio
@@ -895,7 +919,12 @@ def judge_messages(msgs: List[Dict[str, Any]], pools: Dict[str, workers.Pool], t
     from .. import orderdep
 
     names = list(pools)
-    cases = [["msg", enc(m)] for m in msgs]
+    n_plain = len(msgs)
+    shared_src = [m for m in msgs if any(isinstance(m.get(k), dict) and m.get(k) for k in ("params", "result"))
+                  or isinstance((m.get("error") or {}).get("data"), (dict, list))][::4]
+    cases = [["msg", enc(m)] for m in msgs] + [["msg-shared", enc(m)] for m in shared_src]
+    msgs.extend(share_containers(json.loads(json.dumps(m))) for m in shared_src)      # in place: the caller indexes this list
+    tally.add("messages_with_a_shared_container", len(shared_src))
     ans = orderdep.per_config([{"name": n} for n in names], lambda c: pools[c["name"]].map(cases))
     viol: List[Tuple[int, dict, str]] = []
     texts: Dict[str, int] = {}
@@ -1077,11 +1106,12 @@ def run(tier: str, only=None) -> core.Result:
                 mpools = start_msg_pools(max(1, workers.n_total_workers() // (2 * len(MSG_CONFIGS))))
                 try:
                     msg_hello = {n: p.hello for n, p in mpools.items()}
+                    n_plain_msgs = len(msgs)
                     for (i, sig, msg) in judge_messages(msgs, mpools, tally_s, msg_audit):
                         k = json.dumps(sig, sort_keys=True)
                         viol_sigs_s[k] = viol_sigs_s.get(k, 0) + 1
                         if viol_sigs_s[k] <= 8:
-                            res_s.add_violation(sig, msg, {"ref": "vf.checks.c17:replay_case", "args": {"message": enc(msgs[i])}})
+                            res_s.add_violation(sig, msg, {"ref": "vf.checks.c17:replay_case", "args": {"message": enc(msgs[i]), "shared": i >= n_plain_msgs}})
                         else:
                             res_s.violation_total += 1
                 finally:
@@ -1335,6 +1365,7 @@ def run(tier: str, only=None) -> core.Result:
         "text files are io.TextIOWrapper objects over a memory buffer with the stated encoding and binary files io.BufferedWriter/BufferedReader over one - the classes open() returns - so that the check writes nothing to disk",
         "encode statefulness: 'a fresh process' is a fork of a worker that has imported the library and has never called an encoder; outputs are compared by length and a 80-bit digest",
         "deep nesting: single-child chains of 200..1400 arrays / objects (around orjson's encoder limit 254 and decoder limit 1024) are built inside the workers from a description and compared there without recursion; nesting beyond about 1490 levels, which neither codec follows under the interpreter's default limits, is outside the alphabet",
+        "strings whose text looks like JSON syntax (NaN / Infinity / null / true / 1e999 right after ':' ',' '[' with and without blanks, quoted fragments, comment markers) are part of the scalar alphabet and of the keys; messages are also encoded with one container object occurring several times in their payload (never containing itself)",
         "statefulness part: the in-place mutations are an append and an item replacement on every list, a new key and a key deletion on every dict, at nesting depth 0-2 of the decoded value; the value must decode unchanged afterwards through every decoding entry point",
         "the orjson-masked worker models 'orjson not installed' by an import blocker placed on sys.meta_path before chuk_mcp is imported",
     ]
@@ -1404,8 +1435,14 @@ def replay_case(args: Dict[str, Any]) -> Dict[str, Any]:
         tally = Tally()
         mpools = start_msg_pools(1)
         try:
-            viol = judge_messages([m], mpools, tally, {})
-            shown = {n: p.map([["msg", enc(m)]])[0] for n, p in mpools.items()}
+            op_ = "msg-shared" if args.get("shared") else "msg"
+            viol = judge_messages([m], mpools, tally, {}) if not args.get("shared") else []
+            shown = {n: p.map([[op_, enc(m)]])[0] for n, p in mpools.items()}
+            if args.get("shared"):
+                for n, a in shown.items():
+                    for api, r in a.items():
+                        if "exc" in r:
+                            viol.append((0, {"class": "message-encoding-raised", "config": n, "api": api, "exception": r["exc"]}, str(r)))
         finally:
             for p in mpools.values():
                 p.close()
